@@ -75,6 +75,7 @@ class World:
         self.closed = False
         self.write_fault: Exception | None = None  # sync flavour: transport.write raises
         self.ret_hook: Callable[[str], None] | None = None
+        self.transports: list[Any] = []
         self._patch_transport()
 
     # --- transport whose write can raise synchronously (uvloop-style) ----------------------
@@ -92,7 +93,9 @@ class World:
                 super().write(data)
 
         def make(sock: Any, protocol: Any, waiter: Any = None, *, extra: Any = None, server: Any = None) -> Any:
-            return T(self.loop, sock, protocol, waiter, extra, server)
+            t = T(self.loop, sock, protocol, waiter, extra, server)
+            world.transports.append(t)
+            return t
 
         self.loop._make_socket_transport = make  # type: ignore[method-assign]
 
